@@ -34,6 +34,14 @@ tuple, iterator and generator with 1-9 (40) distinct scores, ascending / descend
      docids the big operand lacks - needs a tiny operand with weight != 1 and a docid outside the big one
   10 addmany de-duplicates a list / tuple of > 128 pairs through dict(sequence) - needs an item twice in a big batch
   Replays of big cases are shrunk by halving chunks of entries (the seed replays end at 33 entries vs 1, 129 pairs).
+Round 4: 7% of all cases are `big` NBest sessions (213 per quick run: ulp 67, timestamps 59, mixed 30, negative 25,
+beyond-double 32): INTEGER scores a C double cannot tell apart (neighbours above 2**53 / 2**63 / 2**80, nanosecond
+timestamps 1-100 ns apart, their negatives, small ints mixed with 2**53+k) or cannot hold (10**310+k), arriving
+ascending / descending / randomly, every third one handed over as a float when a float holds exactly that value; the
+scores that come back are compared as exact values (5.0 == 5, but 2**53+3 must stay 2**53+3); 143 of the cases hold
+two different scores with the same double.  The driver's NBest scores are Lean `Int` (unbounded), the theorems hold for
+any linear order.  Seeded C17_H (scores in array('d')) was missed before and is caught now; one more of the class,
+VIOLATION on quick seed 0:  F  addmany bisects with `float(score)`.
   `bisect <x> <scores>` compares the model's binary search (`NBest.bisectLeft`, theorem `c17_bisect_left`) with
   CPython's `bisect.bisect_left` (a trusted-base definition checked on every run); mutation 4 re-run after the
   addition: still caught.
@@ -372,6 +380,69 @@ def gen_nbest(rng, tier, idx):
 
 
 ADDMANY = ["addmany", "addmanyt", "addmanyi", "addmanyg"]
+BIG_KINDS = ["ulp", "ulp", "timestamps", "timestamps", "mixed", "negative", "beyond-double"]
+
+
+def big_pool(rng, kind, n):
+    """n distinct ascending INTEGER scores a C double cannot tell apart (or cannot hold at all): neighbours above
+    2**53, nanosecond timestamps 40 ns apart, the same below zero, mixed with small ints, ints beyond 1.8e308"""
+    if kind == "ulp":
+        base = rng.choice([2 ** 53, 2 ** 53 + 2, 2 ** 54 + 1, 2 ** 63 - 3, 2 ** 64, 10 ** 17, 2 ** 80 + 5])
+        return [base + k for k in range(n)]
+    if kind == "timestamps":
+        t0 = 1700000000 * 10 ** 9 + rng.randrange(10 ** 9)
+        return [t0 + rng.choice([1, 40, 40, 100]) * k for k in range(n)]
+    if kind == "negative":
+        base = rng.choice([2 ** 53, 2 ** 60 + 1, 10 ** 18])
+        return sorted(-(base + k) for k in range(n))
+    if kind == "beyond-double":
+        return sorted(rng.choice([-1, 1]) * (10 ** 310 + k) for k in range(n))
+    small = list(range(n // 2))
+    return small + [2 ** 53 + 1 + k for k in range(n - len(small))]
+
+
+def gen_nbest_big(rng, tier, idx):
+    """NBest holds (item, score) for ANY mutually comparable scores: integer scores that differ by less than one ulp
+    of a double (and ints no double can hold), handed over as ints and - where a float represents the value exactly
+    - as floats mixed in; the scores that come back must be the values that went in (2**53 + 3 stays 2**53 + 3)"""
+    kind = rng.choice(BIG_KINDS)
+    cap = rng.choice([1, 1, 2, 2, 3, 4, 5, 8])
+    nscores = rng.choice([2, 3, 5, 9, 12])
+    pool = big_pool(rng, kind, nscores)
+    cmds = [["new", cap]]
+    item = 0
+    arrival = rng.choice(["random", "random", "ascending", "descending"])
+    seq = {"ascending": list(pool), "descending": list(reversed(pool))}.get(arrival)
+    k = 0
+
+    def score():
+        nonlocal k
+        if seq is not None and rng.random() < 0.8:
+            k += 1
+            return seq[(k - 1) % len(seq)]
+        return rng.choice(pool)
+    for _ in range(rng.randrange(3, 30 if tier == "quick" else 80)):
+        r = rng.random()
+        if r < 0.45:
+            item += 1
+            cmds.append(["add", item, score()])
+        elif r < 0.6:
+            c = [rng.choice(ADDMANY)]
+            for _ in range(rng.randrange(0, 2 * cap + 3)):
+                item += 1
+                c += [item, score()]
+            cmds.append(c)
+        elif r < 0.7:
+            cmds.append(["pop"])
+        elif r < 0.94:
+            cmds.append(["best"])
+        elif r < 0.97:
+            cmds.append(["len"])
+        else:
+            a = sorted(rng.choice(pool) for _ in range(rng.choice([0, 1, 2, 3, 5, 8, 13])))
+            cmds.append(["bisect", rng.choice(pool) + rng.choice([-1, 0, 0, 1])] + a)
+    cmds.append(["best"])
+    return {"session": "setopsnbest", "cfg": [["cfg", "scale", 1], ["cfg", "mode", "big-" + kind]], "cmds": cmds}
 
 
 def gen_nbest_bulk(rng, tier, idx):
@@ -428,6 +499,8 @@ def gen(rng, tier, idx):
         return gen_setops(rng, tier, idx)
     if r < 0.68:
         return gen_nbest_bulk(rng, tier, idx)
+    if r < 0.76:
+        return gen_nbest_big(rng, tier, idx)
     return gen_nbest(rng, tier, idx)
 
 
@@ -471,12 +544,24 @@ def impl_setops(hyp, case):
 def impl_nbest(hyp, case):
     from hypatia.nbest import NBest
     scale = cfgdict(case)["scale"]
+    big = str(cfgdict(case).get("mode", "")).startswith("big")
+    nth = [0]
 
     def sc(s):
+        if big:
+            # the integer itself; every third time as a float when a float holds exactly this value (ints and floats
+            # compare by value in Python, so the order is the integers' order)
+            nth[0] += 1
+            if nth[0] % 3 == 0 and abs(s) < 2 ** 1000 and int(float(s)) == s:
+                return float(s)
+            return s
         # k/8 as a float unless it is a whole number (mixes int and float scores)
         return s if scale == 1 else (s // scale if s % scale == 0 else s / float(scale))
 
     def unsc(x):
+        if big:
+            # exact: the value that comes back, whatever its type (int(float) is exact for integral floats)
+            return int(x) if x == int(x) else x
         return int(round(x * scale))
     nb = None
     outs = []
@@ -499,9 +584,9 @@ def impl_nbest(hyp, case):
                 outs.append("ok" if ps == before else "argument-modified")
             elif op == "pop":
                 it, s = nb.pop_smallest()
-                outs.append("%d:%d" % (it, unsc(s)))
+                outs.append("%d:%s" % (it, unsc(s)))
             elif op == "best":
-                outs.append("[" + " ".join("%d:%d" % (it, unsc(s)) for it, s in nb.getbest()) + "]")
+                outs.append("[" + " ".join("%d:%s" % (it, unsc(s)) for it, s in nb.getbest()) + "]")
             elif op == "len":
                 outs.append(str(len(nb)))
             elif op == "cap":
@@ -609,6 +694,12 @@ def features(case, outs):
     held = 0
     if cfgdict(case).get("mode") == "bulk":
         f.append("case:nbest-bulk")
+    if str(cfgdict(case).get("mode", "")).startswith("big"):
+        f.append("case:nbest-bigint")
+        f.append("case:nbest-" + cfgdict(case)["mode"])
+        scs = {c[i + 1] for c in case["cmds"] if c[0] in ("add",) + tuple(ADDMANY) for i in range(1, len(c), 2)}
+        if any(a != b and max(abs(a), abs(b)) < 2 ** 1000 and float(a) == float(b) for a in scs for b in scs):
+            f.append("nb:two-scores-one-double")
     for c, o in zip(case["cmds"], outs):
         f.append("nb:" + c[0])
         if o.startswith("err"):
@@ -716,7 +807,9 @@ RULE = ("60% set-algebra cases: 1-3 operand lists of 0-6 IF maps (0-18 keys from
         "compared exactly and 30% arbitrary float32 scores compared with rel. tol. 2e-6; 40% NBest sessions: "
         "capacity 1-8 (and N<1), 3-30 (thorough 80) add/addmany/pop_smallest/getbest/len calls with scores "
         "from a pool of 1-9 values (heavy ties), scores as ints or as k/8 floats, addmany given a list / tuple / "
-        "iterator / generator. 7% of the set-algebra cases are `bigsmall`: 1-3 maps of 1-8 keys and 1-2 maps of "
+        "iterator / generator; 7% of all cases NBest sessions with big integer scores (neighbours above 2**53, "
+        "nanosecond timestamps, negatives, beyond the double range; ints and exact floats mixed; returned scores "
+        "compared exactly). 7% of the set-algebra cases are `bigsmall`: 1-3 maps of 1-8 keys and 1-2 maps of "
         "300-1500 (12%: 3000; thorough also 2000) keys sharing a core of 1-8 docids, dyadic scores with exactly 0.0 "
         "and negative values (45% of the core entries of a big map), every order of 3 operands (4-5 random orders "
         "of more), a None operand added in 30%; a third of the ordinary dyadic cases also draw 0.0 / negative "
